@@ -8,6 +8,8 @@ the quick tier) plus hypothesis pairs that mix all parts:
 
   versions     every op (7) x atom version pool x package version pool (same key + a few foreign keys)
   constraints  slot / sub-slot / slot operator / repository / blocker prefix x package slot/subslot/repo
+  names        every atom key x every package key over pools of near-miss categories / names (letter case only, one
+               character, prefix / suffix / hyphenated extension): match iff both are identical
   use          every non-empty USE-dep list over flags f,g,h (each flag absent or [-]flag[(+)|(-)])
                x every package state per flag (not in IUSE / off / on), IUSE spelled with +/- defaults
   conditional  the 2-style forms f? !f? f= !f= (with defaults) resolved with evaluate_conditionals()
@@ -48,7 +50,8 @@ LEVEL_NOTE = (
     "package model. No proof of absence outside the universes."
 )
 RULE = (
-    "pairs (atom fields, package fields); non-trivial = package shares the atom's key and the atom has a "
+    "pairs (atom fields, package fields); non-trivial = (names family) the keys are identical or near misses (case-only, "
+    "one character, prefix) in one half, or the package shares the atom's key and the atom has a "
     "version operator other than plain '=' (=*, ~, <, <=, >=, >) or a USE dep or a slot/sub-slot/repo "
     "constraint; distinct = distinct (atom string, package description)"
 )
@@ -248,13 +251,18 @@ def bucket_for(objs, f, p, got, exp):
         if _impl_match(objs, g, p) == M.atom_matches(g, p):
             return f"blocker:{f['blocks']}:{direction}"
         f = g
+    if (f["cat"], f["pkg"]) != (p["cat"], p["pkg"]) and got:
+        # the reference can only have failed on the key; every single-part atom would repeat the same mismatch
+        half, k = ("category", "cat") if f["cat"] != p["cat"] else ("package", "pkg")
+        return f"key:{half}:{name_relation(f[k], p[k])}:{direction}"
     parts = []
     for name, g in _sub_atoms(f):
         if _impl_match(objs, g, p) != M.atom_matches(g, p):
             parts.append((name, g))
     if not parts:
         if (f["cat"], f["pkg"]) != (p["cat"], p["pkg"]):
-            return f"key:{direction}"
+            half, k = ("category", "cat") if f["cat"] != p["cat"] else ("package", "pkg")
+            return f"key:{half}:{name_relation(f[k], p[k])}:{direction}"
         return f"combination:{direction}"
     name, g = parts[0]
     if name == "version":
@@ -271,11 +279,11 @@ def bucket_for(objs, f, p, got, exp):
     return f"{name}:{direction}"
 
 
-def check(ctx, objs, f, p, extra_classes=()):
+def check(ctx, objs, f, p, extra_classes=(), force_nontrivial=False):
     case = {"atom": M.atom_str(f), "fields": f, "pkg": p}
     exp = M.atom_matches(f, p)
     cl = classify(f, p) + list(extra_classes) + ["expect:" + ("match" if exp else "nomatch")]
-    ctx.case(case, nontrivial=nontrivial(f, p), classes=cl, key=case["atom"] + " | " + pkg_key(p))
+    ctx.case(case, nontrivial=force_nontrivial or nontrivial(f, p), classes=cl, key=case["atom"] + " | " + pkg_key(p))
 
     def body():
         got = _impl_match(objs, f, p)
@@ -362,6 +370,45 @@ def spelled_iuse(iuse, i):
     for j, fl in enumerate(iuse):
         out.append(("", "+", "-")[(i + j) % 3] + fl)
     return out
+
+
+# near-miss names: differing only in letter case, by one character, by a prefix / suffix / hyphenated extension
+CAT_POOL = ["a", "A", "aa", "ab", "a-b", "b", "dev-libs", "dev-Libs", "dev-lib"]
+PKG_POOL = ["x", "X", "xx", "xy", "x-y", "y", "foo", "Foo", "FOO", "fo", "fooo", "fop", "foo-bar", "foobar", "foo-Bar",
+            "libx11", "libX11", "pyyaml", "PyYAML"]
+
+
+def name_relation(a, b):
+    if a == b:
+        return "same"
+    if a.lower() == b.lower():
+        return "case-only"
+    if a.startswith(b) or b.startswith(a):
+        return "prefix"
+    if len(a) == len(b) and sum(x != y for x, y in zip(a, b)) == 1:
+        return "one-char"
+    return "other"
+
+
+def task_names(ctx, objs, slice_, nslices):
+    """every atom key x every package key of the pools: match iff category and name are both identical"""
+    keys = [(c, n) for c in CAT_POOL for n in PKG_POOL]
+    shapes = [dict(op="", ver=None), dict(op="=", ver="1"), dict(op="", ver=None, blocks="!"),
+              dict(op=">=", ver="1", blocks="!!", slot="0")]
+    for i, (ac, an) in enumerate(keys):
+        if i % nslices != slice_:
+            continue
+        if ctx.out_of_time():
+            ctx.note("exhaustive_names", False)
+            return
+        f = mkatom(cat=ac, pkg=an, **shapes[i % len(shapes)])
+        for (pc, pn) in keys:
+            rc, rn = name_relation(ac, pc), name_relation(an, pn)
+            near = (rc == "same" and rn != "other") or (rn == "same" and rc != "other")
+            check(ctx, objs, f, mkpkg(cat=pc, pkg=pn, ver="1"), extra_classes=("names", f"names:cat-{rc}", f"names:pkg-{rn}"),
+                  force_nontrivial=near)
+    ctx.note("exhaustive_names", True)
+    ctx.note("name_keys", len(keys))
 
 
 def task_versions(ctx, objs, slice_, nslices, small=False):
@@ -469,8 +516,8 @@ def task_conditional(ctx, objs, slice_, nslices, small=False):
 
 # ---- hypothesis --------------------------------------------------------------------------------
 
-_names = st.sampled_from(["x", "y", "x-y", "x1", "xx"])
-_cats = st.sampled_from(["a", "aa", "b", "a-b"])
+_names = st.sampled_from(["x", "y", "x-y", "x1", "xx", "X", "xy", "foo", "Foo", "foo-bar", "foobar"])
+_cats = st.sampled_from(["a", "aa", "b", "a-b", "A", "ab"])
 _slot = st.sampled_from(["0", "1", "10", "1.2", "2", "a", "3.11"])
 _opt_slot = st.one_of(st.none(), _slot)
 _repo = st.sampled_from(["r1", "r2", "r10", "gentoo"])
@@ -549,7 +596,7 @@ def plan(tier, seed):
     preload()
     quick = tier == "quick"
     tasks = []
-    for name, n in (("use", 2), ("conditional", 2), ("constraints", 2), ("versions", 2 if quick else 6)):
+    for name, n in (("use", 2), ("names", 2), ("conditional", 2), ("constraints", 2), ("versions", 2 if quick else 6)):
         for i in range(n):
             t = {"task": name, "slice": i, "nslices": n}
             if name in ("versions", "conditional"):
@@ -572,6 +619,8 @@ def run_task(ctx, task, **kw):
         task_constraints(ctx, objs, kw["slice"], kw["nslices"])
     elif task == "use":
         task_use(ctx, objs, kw["slice"], kw["nslices"])
+    elif task == "names":
+        task_names(ctx, objs, kw["slice"], kw["nslices"])
     elif task == "conditional":
         task_conditional(ctx, objs, kw["slice"], kw["nslices"], kw.get("small", False))
     elif task == "hyp":
